@@ -53,6 +53,8 @@ enum H {
     Then(Box<H>, Box<H>),
     /// suspend a future (yielding `yields` times) that results in the handler `body` (index into the table)
     Suspend(usize, u32),
+    /// a result transformer around a handler: 0 `a.discard()`, 1 `Some(a).discard()`, 2 `a.map(|_| ())`
+    Wrap(Box<H>, u8),
 }
 
 #[derive(Clone, Debug, PartialEq)]
@@ -173,6 +175,11 @@ fn build(sh: &Shared, ctx: HandlerContext<TestAgent>, h: &H) -> BoxEventHandler<
             let b2 = (**b).clone();
             build(sh, ctx, a).and_then(move |_: ()| build(&sh2, ctx, &b2)).boxed()
         }
+        H::Wrap(a, kind) => match kind {
+            0 => build(sh, ctx, a).discard().boxed(),
+            1 => Some(build(sh, ctx, a)).discard().boxed(),
+            _ => build(sh, ctx, a).map(|_: ()| ()).boxed(),
+        },
         H::Suspend(i, yields) => {
             let (i, yields) = (*i, *yields);
             let sh2 = sh.clone();
@@ -592,10 +599,11 @@ impl<'a> Gen<'a> {
             _ if depth > 0 => {
                 let a = Box::new(self.handler(rank, depth - 1));
                 let b = Box::new(self.handler(rank, depth - 1));
-                if self.rng.below(3) == 0 {
-                    H::Then(a, b)
+                let seq = if self.rng.below(3) == 0 { H::Then(a, b) } else { H::Seq(a, b) };
+                if self.rng.below(4) == 0 {
+                    H::Wrap(Box::new(seq), self.rng.below(3) as u8)
                 } else {
-                    H::Seq(a, b)
+                    seq
                 }
             }
             _ => H::Unit,
@@ -694,6 +702,7 @@ fn coq_h(h: &H) -> String {
         H::GetM(l, k) => format!("(HGetM {} {})", l, z(*k)),
         H::Seq(a, b) => format!("(HSeq {} {})", coq_h(a), coq_h(b)),
         H::Then(a, b) => format!("(HThen {} {})", coq_h(a), coq_h(b)),
+        H::Wrap(a, _) => format!("(HWrap {})", coq_h(a)),
         // the spawn is an effect; the body becomes a top-level handler where the runtime ran it
         H::Suspend(i, _) => format!("(HRecord (EEff {}))", SPAWN + *i as u64),
     }
